@@ -114,6 +114,37 @@ def keepalive_workers(chk, rng, stack, callers, nconn, nreq, pipelined):
     return len(recs)
 
 
+def host_closes_connection(chk, rng, stack, callers):
+    """the host ends its connection with `Connection: close`; the client connection shares that upstream, so the next request of
+    the client must not be answered by the proxy in the host's place: either the client connection ends too (the client
+    reconnects) or the request reaches the host"""
+    for k in range(3):
+        c = callers.caller(0, "curl", True)
+        conn = stack.connect(audit=(0, c["pid"], 1, e2e.IMDS[0], e2e.IMDS[1]))
+        tok = "hc%d" % k
+        stack.hosts.plans[tok] = {"status": 200, "reason": "OK", "headers": [(b"content-type", b"text/plain"), (b"Connection", b"close")],
+                                  "body": b"first", "framing": "cl", "close": True}
+        stack.hosts.take()
+        r1 = conn.request(e2e.build_request("GET", "/metadata/instance?first=%d" % k, [(b"Host", b"h"), (b"x-verif-token", tok.encode())]), b"GET", 6.0)
+        stack.hosts.plans.pop(tok, None)
+        time.sleep(0.1)
+        stack.hosts.take()
+        try:
+            r2 = conn.request(e2e.build_request("GET", "/metadata/instance?second=%d" % k, [(b"Host", b"h")]), b"GET", 6.0)
+        except OSError:
+            r2 = None
+        recs = [r for r in stack.hosts.take() if not r.get("partial")]
+        conn.close()
+        chk.case(nontrivial_key=("host-closes", k, r2 and r2["status"]))
+        chk.count("host_closed_connection_cases")
+        d = {"first_response": r1 and r1["status"], "second_response": r2 and r2["status"], "host_saw_second_request": bool(recs)}
+        if r1 is None or r1["status"] != 200 or r1["body"] != b"first":
+            chk.disagreement("pipeline", d, "first response relayed", str(r1)[:200])
+        elif r2 is not None and not recs:
+            chk.violation("the proxy answered a request itself after the host had closed its connection (the response is not the host's)", d,
+                          expected="client connection closed, or the request relayed to the host", observed=(r2["status"], r2["body"][:80]))
+
+
 def run(chk):
     if not e2e.in_netns():
         e2e.reexec_in_netns()
@@ -153,6 +184,7 @@ def run(chk):
             runner.run_case(case)
         runner.finish(oracle)
         chk.sample(runner.describe(runner.observations[1]))
+        host_closes_connection(chk, rng, stack, callers)
         # keep-alive / pipelining
         rounds = 3 if chk.tier == "quick" else 60
         for k in range(rounds):
